@@ -189,3 +189,52 @@ End Prov.
 
 Arguments VOk {signer}.
 Arguments VErr {signer}.
+
+(* ------------------------------------------------------------------ signing *)
+(* Text that clearsign returns unchanged as Plaintext: no blank, tab or CR right before a line
+   feed (Decode trims them, getLine drops the CR) and the text is empty or ends with a line
+   feed (Decode appends one to every line). *)
+Definition is_blank (c : ascii) : bool :=
+  Ascii.eqb c " "%char || Ascii.eqb c "009"%char || Ascii.eqb c CR.
+
+Inductive lstate := LStart | LBlank | LText.
+
+Fixpoint clean_go (st : lstate) (s : string) : bool :=
+  match s with
+  | EmptyString => match st with LStart => true | _ => false end
+  | String c t =>
+      if Ascii.eqb c LF then match st with LBlank => false | _ => clean_go LStart t end
+      else clean_go (if is_blank c then LBlank else LText) t
+  end.
+
+Definition clean (s : string) : bool := clean_go LStart s.
+
+(* the separator starts nowhere inside m, not even straddling the separator that follows m *)
+Fixpoint nosep_before (m : string) : bool :=
+  match m with
+  | EmptyString => true
+  | String _ t => negb (String.prefix DOTS (m ++ DOTS)) && nosep_before t
+  end.
+
+(* the separator does not occur in s *)
+Fixpoint nosep (s : string) : bool :=
+  match s with
+  | EmptyString => true
+  | String _ t => negb (String.prefix DOTS s) && nosep t
+  end.
+
+Section Sign.
+  Variables sigbody key : Type.
+  Variable sha256 : string -> string.
+  Variable sign : key -> string -> sigbody.                  (* the signature clearsign.Encode makes, over canon text *)
+  Variable clearsign_encode : string -> sigbody -> string.   (* the armored clear-signed file *)
+  Variable sums_yaml : string -> string -> string.           (* yaml.Marshal(SumCollection{Files: {name: value}}) *)
+
+  (* provenance.messageBlock: yaml(metadata) "\n...\n" yaml(sums); [meta] = yaml.Marshal(chart.Metadata) *)
+  Definition message_block (meta name archive : string) : string :=
+    meta ++ DOTS ++ sums_yaml name ("sha256:" ++ sha256 archive).
+
+  (* Signatory.ClearSign(chartpath), as action.Package.Clearsign writes it to <chart>.prov *)
+  Definition clear_sign (k : key) (meta name archive : string) : string :=
+    let m := message_block meta name archive in clearsign_encode m (sign k m).
+End Sign.
